@@ -12,7 +12,7 @@ import random
 from lib import btc, chains, datadir, ref, run, scriptrep
 
 PAYLOADS = [b'hello', b'x', 'Grüße € \U0001F600'.encode(), b'\xff\xfe\xfd', b'ok\xc3', b'\xc3\x28', b'', b'a' * 75, b'b' * 76, b'c' * 80,
-            b'd' * 255, b'e' * 256, b'f' * 3000, 'a\ufffdb'.encode(), '\ufffd'.encode() * 5, ('\ufffd' * 101).encode(),
+            b'd' * 255, b'e' * 256, b'f' * 3000, b'g' * 9996, b'h' * 9997, b'i' * 20000, b'j' * 70000, ('\u00e9' * 5100).encode(), 'a\ufffdb'.encode(), '\ufffd'.encode() * 5, ('\ufffd' * 101).encode(),
             ('x' * 79 + '\u00e9' * 20).encode(), ('\u00e9' * 60).encode(), ('y' + '\u00e9' * 60).encode(), ('\u20ac' * 40).encode(), ('zz' + '\u20ac' * 40).encode(),
             ('\U0001F600' * 30).encode(), ('q' + '\U0001F600' * 30).encode(), 'snow☃'.encode() * 30, b'with;semicolon and "quotes"', b'tab\there', b'\x00nul']
 
